@@ -87,6 +87,10 @@ var srcTargets = []srcTarget{
 	{Group: "Decode", Name: "DecodeAuthorizationRequestClaims", Only: "V2"},
 	{Group: "Decode", Name: "DecodeAuthorizationResponseClaims", Only: "V2"},
 	{Group: "Decode", Recv: "ClaimsData", Name: "verify", Only: "V2"},
+	{Group: "DecodeV1", Recv: "Header", Name: "Valid", Only: "V1"},
+	{Group: "DecodeV1", Name: "parseHeaders", Only: "V1"},
+	{Group: "DecodeV1", Name: "parseClaims", Only: "V1"},
+	{Group: "DecodeV1", Name: "Decode", Only: "V1"},
 	{Group: "DidSign", Recv: "StringList", Name: "Contains", Only: "V2"},
 	{Group: "DidSign", Recv: "OperatorClaims", Name: "DidSign", Only: "V2"},
 	{Group: "DidSign", Recv: "AccountClaims", Name: "DidSign", Only: "V2"},
@@ -108,6 +112,7 @@ func valArgs(o types.Object) string {
 type absParam struct {
 	rel, ty string
 	global  bool // an observation of the world (the clock, an untranslated package function), not of the receiver
+	root    int  // which abstract value it observes: -1 the receiver, i >= 0 the i-th parameter
 }
 
 type tr struct {
@@ -132,6 +137,7 @@ type tr struct {
 	vr         types.Object            // a *ValidationResults parameter: the list of issues so far, returned extended
 	returnsVr  map[types.Object]bool   // translated functions that take and return the issue list
 	myAbs      []absParam              // this function's observations of its own receiver
+	paramRoot  map[string]int          // abstract parameters: name -> position
 	foreignObs bool                    // it also observes an abstract parameter
 }
 
@@ -574,6 +580,57 @@ func isTimeNow(t *tr, e ast.Expr) bool {
 	return ok && pn.Imported().Path() == "time"
 }
 
+// knownArgs: the arguments of a call of a translated function: its observations (of the world, of the receiver it is
+// called on, of abstract arguments - re-rooted at what the caller passes), then the explicit arguments (abstract ones
+// are not passed: they are known through observations only)
+func (t *tr) knownArgs(x *ast.CallExpr, o types.Object, recvPrefix string) []string {
+	var as []string
+	for _, ap := range t.absParams[o] {
+		switch {
+		case ap.global:
+			as = append(as, t.observe(ap.rel, ap.ty))
+		case ap.root == -1:
+			if recvPrefix == "" {
+				t.fail(x, "call of a function that observes a receiver it is not given")
+			}
+			as = append(as, t.observe(recvPrefix+ap.rel, ap.ty))
+		default:
+			if ap.root >= len(x.Args) {
+				t.fail(x, "call with too few arguments")
+			}
+			prefix, ok := t.absPath(x.Args[ap.root])
+			if !ok {
+				t.fail(x, "argument %d is not an abstract value", ap.root)
+			}
+			as = append(as, t.observe(prefix+ap.rel, ap.ty))
+		}
+	}
+	sig := o.Type().(*types.Signature)
+	for i, a := range x.Args {
+		if i < sig.Params().Len() && isAbstractParam(sig.Params().At(i).Type()) {
+			continue
+		}
+		as = append(as, t.expr(a))
+	}
+	return as
+}
+
+// isAbstractParam: a parameter known through observations only (as translateFunc classifies it)
+func isAbstractParam(ty types.Type) bool {
+	if isVR(ty) {
+		return false
+	}
+	if named, ok := ty.(*types.Named); ok && named.Obj().Pkg() != nil && named.Obj().Pkg().Path() == "time" {
+		return false
+	}
+	if named, ok := ty.(*types.Named); ok && named.Obj().Pkg() == nil && named.Obj().Name() == "error" {
+		return false
+	}
+	_, isStruct := derefType(ty).Underlying().(*types.Struct)
+	_, isIface := ty.Underlying().(*types.Interface)
+	return (isStruct && !isPlainStruct(ty)) || isIface
+}
+
 // mapExpr: a map of strings to integers (an association list in the translation)
 func (t *tr) mapExpr(e ast.Expr) string {
 	if t.coqType(e, t.info.TypeOf(e)) != "(list (string * Z))" {
@@ -630,14 +687,7 @@ func (t *tr) call(x *ast.CallExpr) string {
 			t.fail(x, "builtin %s", o.Name())
 		case *types.Func:
 			if n, ok := t.known[o]; ok {
-				var as []string
-				for _, ap := range t.absParams[o] {
-					if !ap.global {
-						t.fail(x, "call of %s, which observes a receiver", f.Name)
-					}
-					as = append(as, t.observe(ap.rel, ap.ty))
-				}
-				return "(" + n + " " + valArgs(o) + strings.Join(append(as, args()...), " ") + ")"
+				return "(" + n + " " + valArgs(o) + strings.Join(t.knownArgs(x, o, ""), " ") + ")"
 			}
 			// an untranslated function of this package: an unknown function of its arguments
 			if sig, ok := o.Type().(*types.Signature); ok && !sig.Variadic() && sig.Results().Len() >= 1 {
@@ -679,6 +729,15 @@ func (t *tr) call(x *ast.CallExpr) string {
 					return "(to_upper " + t.expr(a[0]) + ")"
 				case "strings.TrimSpace":
 					return "(trim_space " + t.expr(a[0]) + ")"
+				case "encoding/json.Unmarshal":
+					// json.Unmarshal(text, &p) into an abstract parameter: whether it fails is an observation of p (as a
+					// function of the text); what p holds afterwards is what the other observations of p tell
+					if u, ok := a[1].(*ast.UnaryExpr); ok && u.Op == token.AND {
+						if prefix, ok := t.absPath(u.X); ok && !strings.HasPrefix(prefix, "\x00") {
+							return "(" + t.observe(prefix+"_json_Unmarshal", "(string -> (option string))") + " " + t.expr(a[0]) + ")"
+						}
+					}
+					t.fail(x, "json.Unmarshal into something that is not an abstract parameter")
 				case "time.Unix":
 					if tv := t.info.Types[a[1]]; tv.Value != nil && tv.Value.ExactString() == "0" {
 						return t.expr(a[0]) // a time is its Unix seconds
@@ -730,24 +789,11 @@ func (t *tr) call(x *ast.CallExpr) string {
 			if n, ok := t.known[sel.Obj()]; ok {
 				if prefix, isAbs := t.absPath(f.X); isAbs && t.absParams[sel.Obj()] != nil && recvIsStruct(sel.Obj()) {
 					// a translated method of an abstract value: its observations become ours, under our name for the value
-					var as []string
-					for _, ap := range t.absParams[sel.Obj()] {
-						if ap.global {
-							as = append(as, t.observe(ap.rel, ap.ty))
-						} else {
-							as = append(as, t.observe(prefix+ap.rel, ap.ty))
-						}
-					}
-					return "(" + n + " " + valArgs(sel.Obj()) + strings.Join(append(as, args()...), " ") + ")"
+					return "(" + n + " " + valArgs(sel.Obj()) + strings.Join(t.knownArgs(x, sel.Obj(), prefix), " ") + ")"
 				}
-				// a value receiver: the receiver itself first, then the callee's observations of the world
-				as := []string{t.expr(f.X)}
-				for _, ap := range t.absParams[sel.Obj()] {
-					if ap.global {
-						as = append(as, t.observe(ap.rel, ap.ty))
-					}
-				}
-				return "(" + n + " " + valArgs(sel.Obj()) + strings.Join(append(as, args()...), " ") + ")"
+				// a value receiver: the receiver itself first, then the callee's observations, then the arguments
+				as := append([]string{t.expr(f.X)}, t.knownArgs(x, sel.Obj(), "")...)
+				return "(" + n + " " + valArgs(sel.Obj()) + strings.Join(as, " ") + ")"
 			}
 			// an untranslated method of an abstract value, with arguments: an unknown function of the arguments
 			if prefix, isAbs := t.absPath(f.X); isAbs {
@@ -1482,7 +1528,7 @@ func (t *tr) mapRange(x *ast.RangeStmt, rest []ast.Stmt, c sctx, ind string) str
 // translateFunc returns the Coq definition text for one function declaration
 func translateFunc(pkg *packages.Package, fd *ast.FuncDecl, coqName string, known map[types.Object]string, mutates map[types.Object]bool, absParams map[types.Object][]absParam, returnsVr map[types.Object]bool) (text string, mutated bool, abs []absParam, vr bool) {
 	t := &tr{info: pkg.TypesInfo, fset: pkg.Fset, names: map[types.Object]string{}, used: map[string]bool{},
-		fieldTy: map[string]string{}, known: known, mutates: mutates, roots: map[types.Object]string{}, absParams: absParams, returnsVr: returnsVr}
+		fieldTy: map[string]string{}, known: known, mutates: mutates, roots: map[types.Object]string{}, absParams: absParams, returnsVr: returnsVr, paramRoot: map[string]int{}}
 	defer func() {
 		if r := recover(); r != nil {
 			u, ok := r.(untr)
@@ -1507,8 +1553,10 @@ func translateFunc(pkg *packages.Package, fd *ast.FuncDecl, coqName string, know
 			t.roots[rv] = id.Name // a struct: known through the observations the body makes of it
 		}
 	}
+	pidx := -1
 	for _, f := range fd.Type.Params.List {
 		for _, id := range f.Names {
+			pidx++
 			o := t.info.Defs[id]
 			_, isStruct := derefType(o.Type()).Underlying().(*types.Struct)
 			_, isIface := o.Type().Underlying().(*types.Interface)
@@ -1520,6 +1568,7 @@ func translateFunc(pkg *packages.Package, fd *ast.FuncDecl, coqName string, know
 			}
 			if (isStruct && !isPlainStruct(o.Type())) || isIface {
 				t.roots[o] = id.Name
+				t.paramRoot[id.Name] = pidx
 				continue
 			}
 			if isVR(o.Type()) {
@@ -1581,11 +1630,21 @@ func translateFunc(pkg *packages.Package, fd *ast.FuncDecl, coqName string, know
 		fp = append(fp, "("+n+" : "+t.fieldTy[n]+")")
 		switch {
 		case strings.HasPrefix(n, "go_") || strings.HasPrefix(n, "obs_"):
-			t.myAbs = append(t.myAbs, absParam{n, t.fieldTy[n], true})
+			t.myAbs = append(t.myAbs, absParam{n, t.fieldTy[n], true, -2})
 		case t.recv != nil && t.roots[t.recv] != "" && strings.HasPrefix(n, t.roots[t.recv]+"_"):
-			t.myAbs = append(t.myAbs, absParam{strings.TrimPrefix(n, t.roots[t.recv]), t.fieldTy[n], false})
+			t.myAbs = append(t.myAbs, absParam{strings.TrimPrefix(n, t.roots[t.recv]), t.fieldTy[n], false, -1})
 		default:
-			t.foreignObs = true
+			found := false
+			for pn, pi := range t.paramRoot {
+				if strings.HasPrefix(n, pn+"_") {
+					t.myAbs = append(t.myAbs, absParam{strings.TrimPrefix(n, pn), t.fieldTy[n], false, pi})
+					found = true
+					break
+				}
+			}
+			if !found {
+				t.foreignObs = true
+			}
 		}
 	}
 	params = append(fp, params...)
@@ -1596,7 +1655,7 @@ func translateFunc(pkg *packages.Package, fd *ast.FuncDecl, coqName string, know
 		// a value receiver (string, list, map): passed as such; only observations of the world travel with the call
 		var globals []absParam
 		for _, ap := range t.myAbs {
-			if ap.global {
+			if ap.global || ap.root >= 0 {
 				globals = append(globals, ap)
 			}
 		}
